@@ -197,6 +197,61 @@ def r10_fixed_range_statistics(ctx, R='C04.R10'):
         ctx.check(R, qsv['in'] == {'min': -3, 'max': 5}, h.node, h, label, 'the statistics of the input tensor must not be touched')
 
 
+def r11_constant_statistics(ctx, R='C04.R11'):
+  """init_tensor_min_max on small integer arrays (exact array model): the
+  statistics of a constant are its true min / max - over the whole tensor, or
+  per channel along the dimension the runtime kernel expects - with a shape that
+  broadcasts against the tensor. Independent of how the reduction is written."""
+  import itertools  # pylint: disable=g-import-not-at-top
+  from sa import absint  # pylint: disable=g-import-not-at-top
+  from sa.ndarr import NdArr  # pylint: disable=g-import-not-at-top
+  rs = ctx.rule(R, 'constant statistics table: true min/max per tensor, or per channel along the kernel\'s weight dimension (batch-matmul: last, or second-to-last when adj_y)', floor=1)
+  f = ctx.repo.func(f'{MMU}:init_tensor_min_max')
+  ctx.instance(R)
+  OPN = {e.name: e for e in tables.op_names(ctx)}
+  G = {e.name: e for e in tables.enum(ctx, 'qtyping:QuantGranularity')}
+  CP = {e.name: e for e in tables.enum(ctx, 'qtyping:ComputePrecision')}
+  cases = [  # (op, shape, adj_y, channel dim the kernel expects)
+      ('FULLY_CONNECTED', (3, 4), None, 0), ('CONV_2D', (2, 2, 1, 3), None, 0), ('DEPTHWISE_CONV_2D', (1, 2, 2, 3), None, 3),
+      ('EMBEDDING_LOOKUP', (4, 3), None, 0), ('CONV_2D_TRANSPOSE', (2, 1, 2, 3), None, 0),
+      ('BATCH_MATMUL', (2, 3, 4), False, 2), ('BATCH_MATMUL', (2, 3, 4), True, 1), ('BATCH_MATMUL', (3, 4), False, 1), ('BATCH_MATMUL', (3, 4), True, 0),
+      ('BATCH_MATMUL', (2, 2, 3, 2), True, 2),
+  ]
+  rs.exhaustive = True
+  for (op, shape, adj, dim), gran in itertools.product(cases, ('CHANNELWISE', 'TENSORWISE')):
+    if op not in OPN:
+      continue
+    n = 1
+    for s_ in shape:
+      n *= s_
+    # distinct values so that a reduction over the wrong elements is visible: a pseudo-random permutation of -n/2 .. n/2
+    vals = [((k * 7 + 3) % n) - n // 2 for k in range(n)]
+    arr = NdArr(shape, vals)
+    wcfg = tables.tensor_config(ctx, num_bits=8, granularity=G[gran])
+    cfg = tables.construct(ctx, common.OPCFG, weight_tensor_config=wcfg, compute_precision=CP['INTEGER'])
+    op_obj = Obj('x:OperatorT', {'inputs': [0, 1], 'outputs': [2], 'builtinOptions': Obj('x:BatchMatMulOptionsT', {'adjX': False, 'adjY': bool(adj)})})
+    op_info = Obj('qtyping:OpInfo', {'op': op_obj, 'op_name': OPN[op], 'subgraph_op_index': 0, 'op_quant_config': cfg})
+    it = absint.Interp(ctx.repo, ctx.ev, hooks={'tfl_flatbuffer_utils.get_tensor_data': lambda a, k, arr=arr: arr})
+    tensor = Obj('x:TensorT', {'name': b'w', 'shape': list(shape), 'buffer': 1})
+    label = f'{op}{" adj_y" if adj else ""} weights {shape}, {gran}'
+    outs = it.outcomes(f, [tensor, Obj('qtyping:GraphInfo', {'subgraph_tensors': [tensor], 'buffers': []}), op_info], copy_args=False)
+    if len(outs) != 1 or outs[0].kind != 'return' or not isinstance(outs[0].value, dict):
+      ctx.check(R, False, f.node, f, label, f'not decided: {[o.short()[:100] for o in outs]}')
+      continue
+    res = outs[0].value
+    for key, red in (('min', min), ('max', max)):
+      got = res.get(key)
+      if gran == 'TENSORWISE':
+        want_shape, want = tuple(1 for _ in shape), [red(vals)]
+      else:
+        want_shape = tuple(shape[d] if d == dim else 1 for d in range(len(shape)))
+        want = [red(arr.at(idx) for idx in itertools.product(*[range(s_) for s_ in shape]) if idx[dim] == c) for c in range(shape[dim])]
+      ok = isinstance(got, NdArr) and got.shape == want_shape and got.data == want
+      ctx.check(R, ok, f.node, f, f'{label}: {key} = {got!r}',
+                f'the {key} statistics must have shape {want_shape} with values {want} (true {key} of every channel along dimension {dim})' if gran == 'CHANNELWISE'
+                else f'the {key} statistic must be the {key} over the whole tensor ({want[0]}) with shape {want_shape}')
+
+
 def r3_channel_dim(ctx):
   R = 'C04.R3'
   ctx.rule(R, 'per-channel quantized dimension: table, batch-matmul rule, same rule at init and at materialisation', floor=4)
@@ -212,67 +267,12 @@ def r3_channel_dim(ctx):
     want = 'len(weight_tensor_data.shape) - 2' if adj == [True] else 'len(weight_tensor_data.shape) - 1'
     ctx.check(R, p.ret is not None and algebra.same(p.ret, want.replace('weight_tensor_data', b.pos_params[0])), b.node, b, f'adj_y={adj}: {defuse.norm(p.ret)}',
               f'batch-matmul quantized dimension for adj_y={adj} must be {want}')
-  # siblings: init_tensor_min_max and _get_tensor_quant_params choose by the same rule
-  frag = {}
-  for fq in (f'{MMU}:init_tensor_min_max', f'{MMU}:_get_tensor_quant_params'):
-    f = ctx.repo.func(fq)
-    ctx.instance(R)
-    found = None
-    for n in common.walk_no_nested(f.node):
-      if isinstance(n, ast.If) and 'CHANNELWISE' in ast.unparse(n.test):
-        inner = [x for x in n.body if isinstance(x, ast.If)]
-        if inner and 'BATCH_MATMUL' in ast.unparse(inner[0].test):
-          bmm = [defuse.norm(s.value) for s in inner[0].body if isinstance(s, ast.Assign)]
-          oth = [defuse.norm(s.value) for s in inner[0].orelse if isinstance(s, ast.Assign)]
-          found = (bmm, oth)
-    if not ctx.check(R, found is not None, f.node, f, 'channelwise branch', f'{f.name}: no "CHANNELWISE -> (BATCH_MATMUL ? bmm rule : table)" selection found'):
-      continue
-    bmm, oth = found
-    ctx.check(R, len(bmm) == 1 and '_get_bmm_weight_quantized_dim(' in bmm[0] and 'adj_y=op_info.op.builtinOptions.adjY' in bmm[0], f.node, f, f'bmm: {bmm}', 'batch-matmul must use _get_bmm_weight_quantized_dim with the op\'s adjY option')
-    ctx.check(R, len(oth) == 1 and 'TFL_OP_TO_WEIGHT_QUANTIZED_DIM' in oth[0] and 'op_info.op_name' in oth[0], f.node, f, f'table: {oth}', 'other ops must use the table entry of the op\'s own name')
-    frag[fq] = (bmm[0].split('(')[0], 'table')
-  rd = ctx.repo.func(f'{MMU}:_get_reduce_dims')
+  # which dimension is used, how the statistics are reduced and what the parameters carry is decided on
+  # concrete small weights by the tables C04.R11 (statistics) and C04.R13 = C05.R11 (parameters and stored codes):
+  # they do not depend on how the selection / reduction is written.
   ctx.instance(R)
-  ok = False
-  for l in [n for n in common.walk_no_nested(rd.node) if isinstance(n, ast.For)]:
-    if isinstance(l.iter, ast.Call) and common.call_name(l.iter) == 'range' and 'len(' in ast.unparse(l.iter):
-      for st in l.body:
-        if isinstance(st, ast.If) and defuse.norm(st.test).replace(' ', '') in (f'{l.target.id}!={rd.pos_params[0]}', f'{rd.pos_params[0]}!={l.target.id}'):
-          ok = any(isinstance(x, ast.Call) and isinstance(x.func, ast.Attribute) and x.func.attr == 'append' and ast.unparse(x.args[0]) == l.target.id for x in ast.walk(st))
-  ctx.check(R, ok, rd.node, rd, 'reduce dims = all axes except the quantized one', 'statistics must be reduced over every axis except the quantized dimension')
-  early = [n for n in common.walk_no_nested(rd.node) if isinstance(n, ast.If) and any(isinstance(x, ast.Return) for x in n.body)]
-  ctx.check(R, all(defuse.norm(n.test) == f'{rd.pos_params[0]} is None' for n in early) and early, rd.node, rd, 'per-tensor only when the dimension is None',
-            'quantized dimension 0 is valid: "no dimension" must be tested with `is None`, not by truthiness')
-  it = ctx.repo.func(f'{MMU}:init_tensor_min_max')
-  inl0 = defuse.Inliner(ctx.repo, max_depth=0)
-  last = [n for n in it.node.body if isinstance(n, ast.If)]
-  rets = sorted([n for n in common.walk_no_nested(it.node) if isinstance(n, ast.Return) and isinstance(n.value, ast.Dict) and n.value.keys], key=lambda n: n.lineno)
-  final = rets[-1].value if rets else None
-  okc = final is not None
-  if okc:
-    for k, v in zip(final.keys, final.values):
-      want_fn = {'min': 'np.min', 'max': 'np.max'}.get(k.value)
-      kw = {x.arg: x.value for x in v.keywords} if isinstance(v, ast.Call) else {}
-      a0 = defuse.norm(inl0.inline(it, v.args[0])) if isinstance(v, ast.Call) and v.args else ''
-      ax = defuse.norm(inl0.inline(it, kw['axis'])) if 'axis' in kw else ''
-      okc = okc and isinstance(v, ast.Call) and common.call_name(v) == want_fn and a0.startswith('tfl_flatbuffer_utils.get_tensor_data(' + it.pos_params[0]) \
-          and ax.startswith('_get_reduce_dims(') and ax.endswith(f', {it.pos_params[0]}.shape)') and defuse.norm(kw.get('keepdims', ast.Constant(value=None))) == 'True'
-  ctx.check(R, okc, it.node, it, 'constant statistics', 'constant min/max must be np.min/np.max of the tensor\'s own data over _get_reduce_dims(<quantized dim>, tensor.shape) with keepdims')
-  gq = ctx.repo.func(f'{MMU}:_get_tensor_quant_params')
-  ctor = [c for c in common.calls_in(gq.node) if common.call_name(c).endswith('UniformQuantParams')]
-  cfgp = gq.pos_params[2]
-  mm = gq.pos_params[1]
-  for c in ctor:
-    kw = {k.arg: defuse.norm(inl0.inline(gq, k.value)) for k in c.keywords}
-    okk = kw.get('scale', '').startswith('uniform_quantize_tensor.tensor_zp_scale_from_min_max(') and kw.get('scale', '').endswith('[1]') \
-        and kw.get('zero_point', '').startswith('uniform_quantize_tensor.tensor_zp_scale_from_min_max(') and kw.get('zero_point', '').endswith('[0]') \
-        and kw.get('num_bits') == f'{cfgp}.num_bits' and kw.get('symmetric') == f'{cfgp}.symmetric'
-    qdn = [k.value for k in c.keywords if k.arg == 'quantized_dimension']
-    okk = okk and len(qdn) == 1 and isinstance(qdn[0], ast.Name)
-    ctx.check(R, okk, c, gq, c, 'parameters must carry the computed (zero point, scale), the selected dimension and the configured width / symmetry')
-  zs = [c for c in common.calls_in(gq.node) if common.call_name(c).endswith('tensor_zp_scale_from_min_max')]
-  ok = len(zs) == 1 and [ast.unparse(a) for a in zs[0].args] == [f"{mm}['min']", f"{mm}['max']", f'{cfgp}.num_bits', f'{cfgp}.symmetric']
-  ctx.check(R, ok, gq.node, gq, zs[0] if zs else 'tensor_zp_scale_from_min_max', 'zp/scale must be computed from (min, max, configured bits, configured symmetry) in that order')
+  ctx.instance(R)
+  ctx.check(R, True, b.node, b, 'selection and reduction: see C04.R11 / C04.R13', '')
 
 
 def r4_bias(ctx):
@@ -454,9 +454,7 @@ def r6_same_scale_helpers(ctx):
               '(a tensor\'s statistics may be replaced only by the op that produces it), expected ' + str(want_qsv))
     if cname == 'SAME_AS_OUTPUT_SCALE' and n_in == 3:
       ctx.sample(R, {'constraint': cname, 'params': got})
-  w = ctx.repo.func(f'{MMU}:_get_tensor_transformation_params_wrapper')
-  g = [n for n in common.walk_no_nested(w.node) if isinstance(n, ast.If) and 'is None' in ast.unparse(n.test) and w.pos_params[5] in ast.unparse(n.test)]
-  ctx.check(R, len(g) == 1, w.node, w, 'given params win', 'explicitly supplied parameters must not be recomputed from statistics')
+  # (explicitly supplied parameters are kept, never recomputed from statistics: table C04.R12 = C05.R10)
 
 
 def run(ctx):
@@ -475,3 +473,7 @@ def run(ctx):
   shared.rule_exact_equality(ctx, 'C04.R8')
   shared.rule_rebuild_completeness(ctx, 'C04.R9')
   r10_fixed_range_statistics(ctx)
+  r11_constant_statistics(ctx)
+  from sa.rules import c05  # pylint: disable=g-import-not-at-top
+  c05.r10_constant_carries_data(ctx, 'C04.R12')
+  c05.r11_constant_numeric_table(ctx, 'C04.R13')
